@@ -463,6 +463,10 @@ def run_sequence(res, stack, servers, cfg, rng, tier, plan=None):
                 continue
             if op == "$unjudged":
                 w.call(i, a)
+                try:
+                    w.obj.close()       # a fire-and-forget slip may leave the server's ERROR unread: start the next call afresh
+                except Exception:
+                    pass
                 for srv in w.servers.values():
                     del srv.malformed[:]          # whatever that call wrote is its own business
                     for ses in srv.sessions:
